@@ -683,6 +683,13 @@ impl MDL {
                     ))
                     .ok()?;
 
+                // the indices have to be in the file before space for them is reserved
+                let remaining = (buffer.len() as u64).saturating_sub(cursor.position());
+                if model.meshes[j as usize].index_count as u64 > remaining / size_of::<u16>() as u64
+                {
+                    return None;
+                }
+
                 // TODO: optimize!
                 let mut indices: Vec<u16> =
                     Vec::with_capacity(model.meshes[j as usize].index_count as usize);
